@@ -56,6 +56,16 @@ structure Cfg where
 def isHealthy (op : Op) (timeout now : Int) (i : Inst) : Bool :=
   healthyState op i.state && decide (now - i.ts ≤ timeout)
 
+/-- `InstanceDesc.IsHealthy` at nanosecond resolution, exactly as the code computes it:
+`now.Sub(time.Unix(i.Timestamp, 0)) <= heartbeatTimeout` with `now` = `sec` whole seconds plus `nanos`
+nanoseconds (`nanos < 10^9`) and the timeout a whole number of seconds. -/
+def isHealthyAt (op : Op) (timeout sec : Int) (nanos : Nat) (i : Inst) : Bool :=
+  healthyState op i.state && decide ((sec - i.ts) * 1000000000 + (nanos : Int) ≤ timeout * 1000000000)
+
+/-- The whole-second clock value the integer-second functions (`isHealthy`, `filter`, `get`, …) must be
+given for a wall clock of `sec` s + `nanos` ns: the clock rounded UP (`PC01.isHealthyAt_eq_ceil`). -/
+def ceilNow (sec : Int) (nanos : Nat) : Int := if nanos = 0 then sec else sec + 1
+
 /-! ## `loser.Tree` and `MergeTokens` -/
 
 structure Node where
